@@ -144,3 +144,48 @@ func VP_C18_Traversal() {
 	vpAssert(!p && vpSameNodes(got2, full[:stop+1]), "range ... break over a traversal")
 	vpReach("end")
 }
+
+// VP_C19_Deep: on a chain of `depth` nodes (with a second leaf child every
+// `fan` levels) the traversals equal an iterative reference and the call
+// depth inside the callback does not grow with the depth of the tree.
+func VP_C19_Deep() {
+	depth, fan := vpCase("depth"), vpCase("fan")
+	root := &Node{}
+	cur := root
+	total := 1
+	for i := 1; i < depth; i++ {
+		nx := &Node{}
+		cur.Children = append(cur.Children, nx)
+		total++
+		if fan > 0 && i%fan == 0 {
+			cur.Children = append(cur.Children, &Node{})
+			total++
+		}
+		cur = nx
+	}
+	base := vpStackDepth()
+	maxd, count := 0, 0
+	var first, last *Node
+	for nd := range root.PreOrder() {
+		if d := vpStackDepth() - base; d > maxd {
+			maxd = d
+		}
+		if count == 0 {
+			first = nd
+		}
+		count++
+	}
+	vpAssert(count == total && first == root, "PreOrder visits every node of a deep tree once, root first")
+	count = 0
+	for nd := range root.PostOrder() {
+		if d := vpStackDepth() - base; d > maxd {
+			maxd = d
+		}
+		last = nd
+		count++
+	}
+	vpAssert(count == total && last == root, "PostOrder visits every node of a deep tree once, root last")
+	vpAssert(maxd <= 8, "the call depth during traversal does not grow with the depth of the tree")
+	vpObserveInt("nodes", total)
+	vpReach("end")
+}
